@@ -2,9 +2,9 @@ SPECIFICATION SpecC16q
 CONSTANTS
   TxSpace <- Small16
   EthKeys <- NoKeys
-  MaskByPosition = TRUE
-  RawScriptFallback = TRUE
+  MaskByPosition = FALSE
+  RawScriptFallback = FALSE
   MutClasses <- MutAll
-INVARIANTS SoundUpToDupKeys MutatedRejected
+INVARIANTS Sound MutatedRejected SameSigners
 ACTION_CONSTRAINT Edge
 CHECK_DEADLOCK FALSE
